@@ -8,9 +8,14 @@ import (
 	protocol "github.com/hujm2023/go-sms-protocol"
 	sms "github.com/hujm2023/go-sms-protocol"
 	"github.com/hujm2023/go-sms-protocol/cmpp"
+	"github.com/hujm2023/go-sms-protocol/cmpp/cmpp20"
 	"github.com/hujm2023/go-sms-protocol/cmpp/cmpp30"
 	"github.com/hujm2023/go-sms-protocol/codec"
 	"github.com/hujm2023/go-sms-protocol/datacoding"
+	"github.com/hujm2023/go-sms-protocol/sgip"
+	"github.com/hujm2023/go-sms-protocol/sgip/sgip12"
+	"github.com/hujm2023/go-sms-protocol/smgp"
+	"github.com/hujm2023/go-sms-protocol/smgp/smgp30"
 	"github.com/hujm2023/go-sms-protocol/smpp"
 	"github.com/hujm2023/go-sms-protocol/smpp/smpp34"
 )
@@ -31,7 +36,7 @@ func genGateway(g *genCtx) {
 	for i := 0; i < n; i++ {
 		seed := r.Int63()
 		if g.mine(i) {
-			g.emit(Case{"seed": seed, "proto": pickS(r, "cmpp30", "smpp34"), "msgs": 1 + r.Intn(3)})
+			g.emit(Case{"seed": seed, "proto": pickS(r, "cmpp30", "smpp34", "cmpp20", "smgp30", "sgip12"), "msgs": 1 + r.Intn(3)})
 		}
 	}
 }
@@ -64,7 +69,7 @@ func runGateway(c Case, tr *Tracer) {
 		var txt string
 		coding := 0
 		pools := map[int][]rune{}
-		if proto == "cmpp30" {
+		if proto != "smpp34" {
 			coding = []int{0, 8, 15}[rr.Intn(3)]
 			pools = map[int][]rune{0: []rune("abc XYZ 0189.,"), 8: []rune("abc 中文é😀"), 15: []rune("abc 中文汉字")}
 		} else {
@@ -82,7 +87,7 @@ func runGateway(c Case, tr *Tracer) {
 		txt = string(rs)
 		var parts [][]byte
 		var err error
-		if proto == "cmpp30" {
+		if proto != "smpp34" {
 			parts, _, err = protocol.EncodeCMPPContentAndSplit(ctx, txt, datacoding.CMPPDataCoding(coding), byte(refs[m]))
 		} else {
 			parts, _, err = protocol.EncodeSMPPContentAndSplit(ctx, txt, datacoding.SMPPDataCoding(coding), byte(refs[m]))
@@ -102,9 +107,16 @@ func runGateway(c Case, tr *Tracer) {
 	conn := &scriptedConn{fault: "eof"}
 	var cd codec.Codec = codec.NewCMPPCodec()
 	dispatch := cmpp30.DecodeCMPP30
-	if proto == "smpp34" {
+	switch proto {
+	case "smpp34":
 		cd = codec.NewSMPPCodec()
 		dispatch = smpp34.DecodeSMPP34
+	case "cmpp20":
+		dispatch = cmpp20.DecodeCMPP20
+	case "smgp30":
+		dispatch = smgp30.DecodeSMGP30 // SMGP and SGIP frames carry the same 4-octet total length in front
+	case "sgip12":
+		dispatch = sgip12.DecodeSGIP12
 	}
 	sid := 0
 	outstanding := map[int]part{}
@@ -119,12 +131,36 @@ func runGateway(c Case, tr *Tracer) {
 		mg := msgs[p.m]
 		content := mg.parts[p.i-1]
 		udhi := len(mg.parts) > 1
-		if proto == "cmpp30" {
-			s := &cmpp30.Submit{Header: cmpp.Header{CommandID: cmpp.CommandSubmit}, PkTotal: uint8(len(mg.parts)), PkNumber: uint8(p.i),
+		u8 := uint8(0)
+		if udhi {
+			u8 = 1
+		}
+		switch proto {
+		case "cmpp30":
+			s := &cmpp30.Submit{Header: cmpp.Header{CommandID: cmpp.CommandSubmit}, PkTotal: uint8(len(mg.parts)), PkNumber: uint8(p.i), TpUDHI: u8,
 				MsgFmt: uint8(mg.coding), DestUsrTL: 1, DestTerminalID: []string{"13800000000"}, MsgLength: uint8(len(content)), MsgContent: string(content)}
+			s.SetSequenceID(uint32(sidv))
+			b, _ := s.IEncode()
+			return b
+		case "cmpp20":
+			s := &cmpp20.PduSubmit{Header: cmpp.Header{CommandID: cmpp.CommandSubmit}, PkTotal: uint8(len(mg.parts)), PkNumber: uint8(p.i), TpUDHI: u8,
+				MsgFmt: uint8(mg.coding), DestUsrTL: 1, DestTerminalID: []string{"13800000000"}, MsgLength: uint8(len(content)), MsgContent: string(content)}
+			s.SetSequenceID(uint32(sidv))
+			b, _ := s.IEncode()
+			return b
+		case "smgp30":
+			s := &smgp30.Submit{Header: smgp.NewHeader(0, smgp.CommandSubmit, 0), MsgFormat: uint8(mg.coding), DestTermIDCount: 1, DestTermID: []string{"13800000000"},
+				MsgLength: uint8(len(content)), MsgContent: string(content)}
 			if udhi {
-				s.TpUDHI = 1
+				s.Options = smgp.Options{}
+				s.Options.Add(smgp.NewOption(smgp.TAG_TP_udhi, []byte{1}))
 			}
+			s.SetSequenceID(uint32(sidv))
+			b, _ := s.IEncode()
+			return b
+		case "sgip12":
+			s := &sgip12.Submit{Header: sgip.NewHeader(0, sgip.SGIP_SUBMIT, 1, uint32(sidv)), UserCount: 1, UserNumber: []string{"8613800000000"}, TpUdhi: u8,
+				MessageCoding: uint8(mg.coding), MessageLength: uint32(len(content)), MessageContent: string(content)}
 			s.SetSequenceID(uint32(sidv))
 			b, _ := s.IEncode()
 			return b
@@ -157,6 +193,12 @@ func runGateway(c Case, tr *Tracer) {
 				content, udhi, coding = s.MsgContent, s.TpUDHI == 1, int(s.MsgFmt)
 			case *smpp34.SubmitSm:
 				content, udhi, coding = string(s.ShortMessage), s.ESMClass&0x40 != 0, int(s.DataCoding)
+			case *cmpp20.PduSubmit:
+				content, udhi, coding = s.MsgContent, s.TpUDHI == 1, int(s.MsgFmt)
+			case *smgp30.Submit:
+				content, udhi, coding = s.MsgContent, s.Options.TP_udhi() == 1, int(s.MsgFormat)
+			case *sgip12.Submit:
+				content, udhi, coding = s.MessageContent, s.TpUdhi == 1, int(s.MessageCoding)
 			}
 			resp := pdu.GenEmptyResponse()
 			rsid, rok := -1, false
@@ -195,7 +237,7 @@ func runGateway(c Case, tr *Tracer) {
 			if complete {
 				var txt string
 				var e error
-				if proto == "cmpp30" {
+				if proto != "smpp34" {
 					txt, e = protocol.DecodeCMPPCContent(ctx, string(whole), uint8(coding))
 				} else {
 					txt, e = protocol.DecodeSMPPCContent(ctx, string(whole), coding)
